@@ -118,28 +118,32 @@ Definition ci_new (c : N) : citer := {| ci_cluster := Some c; ci_err := false |}
 (* ---- free-space latches (fs.rs FsInfoSector + FileSystem wrappers) ---- *)
 Record fsinfo := { fi_free : option N; fi_next : option N; fi_dirty : bool }.
 
-Definition map_free (fi : fsinfo) (f : N -> N) : fsinfo :=
+(* FsInfoSector::map_free_clusters(map_fn : Fn(u32) -> Option<u32>): the count is replaced by the result and the latch marked
+   dirty; a None result FORGETS the count (the stored count is only a hint on volumes written by other implementations) *)
+Definition map_free_opt (fi : fsinfo) (f : N -> option N) : fsinfo :=
   match fi_free fi with
-  | Some n => {| fi_free := Some (f n); fi_next := fi_next fi; fi_dirty := true |}
+  | Some n => {| fi_free := f n; fi_next := fi_next fi; fi_dirty := true |}
   | None => fi
   end.
+(* the case of a map that always has a result (used in specifications: "the count grows by k") *)
+Definition map_free (fi : fsinfo) (f : N -> N) : fsinfo := map_free_opt fi (fun n => Some (f n)).
+(* u32::checked_sub(1) / u32::checked_add(k) *)
+Definition checked_sub1 (n : N) : option N := if n =? 0 then None else Some (n - 1).
+Definition checked_add32 (n k : N) : option N := if n + k <=? u32_max then Some (n + k) else None.
 
 (* FileSystem::alloc_cluster without the zeroing of directory clusters (done by the caller's layer) *)
 Definition fs_alloc (t : T) (fi : fsinfo) (prev : option N) (total : N) : res (T * fsinfo * N) :=
   do (t', c) <- alloc_cluster t prev (fi_next fi) total;
   let nxt := if c + 1 <? total + RESERVED_FAT_ENTRIES then c + 1 else RESERVED_FAT_ENTRIES in
   let fi1 := {| fi_free := fi_free fi; fi_next := Some nxt; fi_dirty := true |} in
-  (* map_free_clusters(|n| n - 1): u32 subtraction *)
-  match fi_free fi1 with
-  | Some 0 => Panic
-  | _ => Ok (t', map_free fi1 (fun n => n - 1), c)
-  end.
+  (* map_free_clusters(|n| n.checked_sub(1)): a stored count of 0 is forgotten, not decremented *)
+  Ok (t', map_free_opt fi1 checked_sub1, c).
 
 Definition fs_free_chain (t : T) (fi : fsinfo) (c : N) (fuel : nat) : res (T * fsinfo) :=
-  do (t', k) <- ci_free t (ci_new c) fuel; Ok (t', map_free fi (fun n => n + k)).
+  do (t', k) <- ci_free t (ci_new c) fuel; Ok (t', map_free_opt fi (fun n => checked_add32 n k)).
 
 Definition fs_truncate_chain (t : T) (fi : fsinfo) (c : N) (fuel : nat) : res (T * fsinfo) :=
-  do (t', k) <- ci_truncate t (ci_new c) fuel; Ok (t', map_free fi (fun n => n + k)).
+  do (t', k) <- ci_truncate t (ci_new c) fuel; Ok (t', map_free_opt fi (fun n => checked_add32 n k)).
 
 Definition fs_stats (t : T) (fi : fsinfo) (total : N) : res (fsinfo * N) :=
   match fi_free fi with
